@@ -187,6 +187,7 @@ def run_check(prop, tier, seed):
     nontrivial = set()
     acts = {}
     rp = replay.Replayer()
+    rp2 = replay.Replayer()
     for inst in insts:
         if inst.get("kind") == "b2":      # executions recorded from the code, validated by TLC against spec/Trace.tla
             from harness import b2
@@ -221,6 +222,7 @@ def run_check(prop, tier, seed):
         if not behs:
             print(f"MACHINERY-ERROR property={prop} {inst['module']}/{inst['cfg']}: no behaviour exported")
             return 2
+        behs = sorted(behs, key=summarize)      # deterministic pairing; neighbours share their action skeleton
         step = max(1, len(behs) // 3)
         for b in behs[::step][:3]:
             samples.append({"instance": inst["cfg"], "behaviour": summarize(b)})
@@ -231,17 +233,46 @@ def run_check(prop, tier, seed):
                 nontrivial.add(key)
             for st in b:
                 acts[st["act"]] = acts.get(st["act"], 0) + 1
-            mm = rp.run(b)
-            n_replayed += 1
-            if mm is not None:
+        # Behaviours are replayed in PAIRS, interleaved step by step in one process (two Replayers with separate heaps):
+        # objects of different behaviours are independent, so state leaking between instances of a class (a class-level
+        # cache, a module-level memo) shows up as a mismatch of one of the two.  A behaviour that deviates is replayed
+        # once more ALONE; the report says whether the deviation needs the partner.
+        for k in range(0, len(behs), 2):
+            pair = behs[k:k + 2]
+            if len(pair) == 1:
+                results = [rp.run(pair[0])]
+            else:
+                gens = [rp.run_iter(pair[0]), rp2.run_iter(pair[1])]
+                results, live = [None, None], [True, True]
+                while any(live):
+                    for gi in (0, 1):
+                        if live[gi]:
+                            try:
+                                next(gens[gi])
+                            except StopIteration as stop:
+                                results[gi], live[gi] = stop.value, False
+            for gi, (b, mm) in enumerate(zip(pair, results)):
+                n_replayed += 1
+                if mm is None:
+                    continue
+                if len(pair) == 2:
+                    alone = replay.Replayer().run(b)
+                    if alone is None:
+                        mm["note"] = "[only when interleaved with another behaviour of the instance: state leaks between objects] " + mm["note"]
+                        mm["interleaved_with"] = summarize(pair[1 - gi])
+                    else:
+                        mm = alone
                 sig = signature(mm)
                 if sig not in mismatches:
                     mismatches[sig] = (mm, b, 1)
                 else:
                     m0, b0, c = mismatches[sig]
                     mismatches[sig] = (m0, b0, c + 1)
+    for ck, cv in rp2.counters.items():
+        rp.count(ck, cv)
+    rp.count("behaviours_replayed_interleaved_in_pairs", 2 * (n_replayed // 2))
     return finalize(prop, tier, seed, t0, spec, insts, all_stats, mismatches, n_replayed, samples, nontrivial, acts,
-                    rp.counters, rp.calls, known)
+                    rp.counters, rp.calls + rp2.calls, known)
 
 
 def finalize(prop, tier, seed, t0, spec, insts, all_stats, mismatches, n_replayed, samples, nontrivial, acts, counters, calls,
